@@ -1164,7 +1164,7 @@ func lsmCheckReads(x *seqExec) (string, string) {
 		for _, k := range st.keys {
 			want := st.modelRead(k, ts)
 			if got := get[k]; got != want {
-				return st.managedResurrectClass(x, k, ts, got, want, "read-changed/get"), fmt.Sprintf("Get(%q)@%d = %v, model %v (discardTs %d)\n  lsm: %s", k, ts, got, want, st.discard, shapeString(x.db))
+				return st.resurrectClass(x, k, got, want, st.managedResurrectClass(x, k, ts, got, want, "read-changed/get")), fmt.Sprintf("Get(%q)@%d = %v, model %v (discardTs %d)\n  lsm: %s", k, ts, got, want, st.discard, shapeString(x.db))
 			}
 			for name, m := range map[string]map[string]readObs{"forward": fwd, "reverse": rev} {
 				got, ok := m[k]
@@ -1172,7 +1172,7 @@ func lsmCheckReads(x *seqExec) (string, string) {
 					got = readObs{Val: "<nil>"}
 				}
 				if got != want {
-					return st.managedResurrectClass(x, k, ts, got, want, "read-changed/iter"), fmt.Sprintf("%s iterator key %q@%d = %v, model %v (discardTs %d)\n  lsm: %s", name, k, ts, got, want, st.discard, shapeString(x.db))
+					return st.resurrectClass(x, k, got, want, st.managedResurrectClass(x, k, ts, got, want, "read-changed/iter")), fmt.Sprintf("%s iterator key %q@%d = %v, model %v (discardTs %d)\n  lsm: %s", name, k, ts, got, want, st.discard, shapeString(x.db))
 				}
 			}
 		}
